@@ -444,13 +444,28 @@ def prune_dataflow_cache(world: World):
     """
     if not world.use_cache:
         return
-    min_cache_time = min(s.last_step.time for s in world.sims.values())
+    # Time-shifted connections read data from earlier times.
+    max_shift = max(
+        (
+            delay.tiers[0]
+            for sim in world.sims.values()
+            for _, delay in sim.pulled_inputs
+        ),
+        default=0,
+    )
+    min_cache_time = min(s.last_step.time for s in world.sims.values()) - max_shift
     for sim in world.sims.values():
         if sim.outputs:
+            # The newest entry at or before min_cache_time is still
+            # valid then and must be kept (together with all newer ones).
+            keep_from = max(
+                (time for time in sim.outputs if time <= min_cache_time),
+                default=min_cache_time,
+            )
             sim.outputs = {
                 time: cache
                 for time, cache in sim.outputs.items()
-                if time >= min_cache_time
+                if time >= keep_from
             }
 
 
